@@ -482,6 +482,28 @@ std::string print_tx(Scenario& sc, const CTransaction& tx, const CCoinControl* c
     return s;
 }
 
+
+// ancestor bump fees as CreateTransactionInternal accounts for them (SelectionResult::GetTotalBumpFees): preset inputs carry
+// their INDIVIDUAL bump fees (FetchSelectedInputs; no discount is ever applied to them), automatically selected inputs their
+// individual bump fees minus the overlap discount of ChooseSelectionResult, i.e. min(sum of individual, combined).
+// `needed` is what the unconfirmed ancestors of ALL inputs really need to reach the feerate (combined bump fee).
+std::pair<CAmount, CAmount> bump_fees(Scenario& sc, const CTransaction& tx, const std::vector<COutPoint>& presets, const CFeeRate& rate)
+{
+    std::vector<COutPoint> pre, aut, all;
+    for (const CTxIn& in : tx.vin) {
+        all.push_back(in.prevout);
+        (std::find(presets.begin(), presets.end(), in.prevout) != presets.end() ? pre : aut).push_back(in.prevout);
+    }
+    CAmount code = 0;
+    for (const auto& [op, b] : sc.m_node.chain->calculateIndividualBumpFees(pre, rate)) code += b;
+    CAmount ind = 0;
+    for (const auto& [op, b] : sc.m_node.chain->calculateIndividualBumpFees(aut, rate)) ind += b;
+    const auto comb = sc.m_node.chain->calculateCombinedBumpFee(aut, rate);
+    code += comb ? std::min(ind, *comb) : ind;
+    const auto need = sc.m_node.chain->calculateCombinedBumpFee(all, rate);
+    return {code, need ? *need : code};
+}
+
 std::string run_c41(Scenario& sc, const std::vector<std::string>& rtoks)
 {
     Request rq;
@@ -524,17 +546,7 @@ std::string run_c41(Scenario& sc, const std::vector<std::string>& rtoks)
     CAmount in_total = 0;
     const std::string txs = print_tx(sc, tx, &rq.cc, in_total);
     const TxSize mx = WITH_LOCK(sc.wallet->cs_wallet, return CalculateMaximumSignedTxSize(tx, sc.wallet.get(), &rq.cc));
-    // bump fees of unconfirmed inputs
-    CAmount bump = 0;
-    {
-        std::vector<COutPoint> ops;
-        for (const CTxIn& in : tx.vin) ops.push_back(in.prevout);
-        const CFeeRate eff = GetMinimumFeeRate(*sc.wallet, rq.cc).fee_rate;
-        CAmount ind = 0;
-        for (const auto& [op, b] : sc.m_node.chain->calculateIndividualBumpFees(ops, eff)) ind += b;
-        const auto comb = sc.m_node.chain->calculateCombinedBumpFee(ops, eff);
-        bump = comb ? std::min(ind, *comb) : ind;
-    }
+    const auto [bump, bump_needed] = bump_fees(sc, tx, rq.preset, GetMinimumFeeRate(*sc.wallet, rq.cc).fee_rate);
     std::string tma = "skip";
     if (rq.sign) {
         const MempoolAcceptResult r = WITH_LOCK(cs_main, return sc.m_node.chainman->ProcessTransaction(res->tx, /*test_accept=*/true));
@@ -542,7 +554,7 @@ std::string run_c41(Scenario& sc, const std::vector<std::string>& rtoks)
     }
     std::string s = "OK fee=" + std::to_string(res->fee) + " cp=" + (res->change_pos ? std::to_string(*res->change_pos) : std::string("-")) +
                     " vsize=" + std::to_string(GetVirtualTransactionSize(tx)) + " mvs=" + std::to_string(mx.vsize) +
-                    " bump=" + std::to_string(bump) + " tma=" + tma + " lt=" + std::to_string(tx.nLockTime) + " ver=" + std::to_string(tx.version) +
+                    " bump=" + std::to_string(bump) + " bumpneed=" + std::to_string(bump_needed) + " tma=" + tma + " lt=" + std::to_string(tx.nLockTime) + " ver=" + std::to_string(tx.version) +
                     " | " + txs + tail;
     return s;
 }
@@ -812,16 +824,10 @@ std::string run_c56(Scenario& sc, const Orig& orig, const std::vector<std::strin
                     (sc.m_node.mempool->exists(oid) ? "1" : "0") + "," + (wtx.m_replaced_by_txid && *wtx.m_replaced_by_txid == nid ? "1" : "0") + "," +
                     (errs2.empty() ? "-" : slug(errs2[0].original));
     }
-    CAmount nbump = 0;
-    {
-        std::vector<COutPoint> ops;
-        for (const CTxIn& in : ntx->vin) ops.push_back(in.prevout);
-        CAmount ind = 0;
-        for (const auto& [op, b] : sc.m_node.chain->calculateIndividualBumpFees(ops, nrate)) ind += b;
-        const auto comb = sc.m_node.chain->calculateCombinedBumpFee(ops, nrate);
-        nbump = comb ? std::min(ind, *comb) : ind;
-    }
-    return "OK oldfee=" + std::to_string(old_fee) + " bump=" + std::to_string(nbump) + " newfee=" + std::to_string(new_fee) + " vsize=" + std::to_string(GetVirtualTransactionSize(*ntx)) +
+    std::vector<COutPoint> orig_ops;
+    for (const CTxIn& in : otx.vin) orig_ops.push_back(in.prevout);
+    const auto [nbump, nbump_needed] = bump_fees(sc, *ntx, orig_ops, nrate);
+    return "OK oldfee=" + std::to_string(old_fee) + " bump=" + std::to_string(nbump) + " bumpneed=" + std::to_string(nbump_needed) + " newfee=" + std::to_string(new_fee) + " vsize=" + std::to_string(GetVirtualTransactionSize(*ntx)) +
            " mvs=" + std::to_string(mx.vsize) + " tma=" + tma + " replaces=" + (replaces ? "1" : "0") + " committed=" + committed +
            " newin=" + std::to_string(nin) + headkv + " | " + ntxs + tail;
 }
